@@ -225,3 +225,8 @@ Definition check_C13F (v out : val) : bool := check_C13 v (conv_out v out).
     closeness (2^-40) to the rational model. *)
 Definition agree_C13F (v m out : val) : bool :=
   val_eqb m out && agree_C13 v (run_C13 v) (conv_out v out).
+
+(** * The float model on the RAW texts ([C13_Model.rawify]: the [data] field recomputed by the model's own
+    clean + NFKC + segmentation). [agree] demands in addition that this recomputed field IS the oracle
+    field ([prep_agree]) and that the harness' per-text flags (kf3_free, class) are the model's ([kf_agree]). *)
+Definition run_C13FN (v : val) : val := run_C13F (rawify v).
